@@ -23,6 +23,40 @@ func NewNumber(b bytes.Bytes) (*Number, error) {
 	return newScanner().Scan(b)
 }
 
+// ParseNumber is NewNumber for every numeral of RFC 8259: it also understands
+// a zero integer part directly followed by an exponent part (0e1, -0E0, 0e-5),
+// which NewNumber refuses. Such a numeral is read as if it were written with
+// the fraction ".0" (0.0e1, -0.0E0, 0.0e-5), so its value is zero and the limit
+// on the size of the exponent applies to it as to any other numeral.
+func ParseNumber(b bytes.Bytes) (*Number, error) {
+	n, err := NewNumber(b)
+	if err == nil {
+		return n, nil
+	}
+	if i := lenOfZeroIntegerPart(b); i != 0 && i < len(b) && (b[i] == 'e' || b[i] == 'E') {
+		bb := make(bytes.Bytes, 0, len(b)+2)
+		bb = append(bb, b[:i]...)
+		bb = append(bb, '.', '0')
+		bb = append(bb, b[i:]...)
+		if nn, e := NewNumber(bb); e == nil {
+			return nn, nil
+		}
+	}
+	return nil, err
+}
+
+// lenOfZeroIntegerPart returns 1 for a text beginning with "0", 2 for a text
+// beginning with "-0" and 0 for any other text.
+func lenOfZeroIntegerPart(b bytes.Bytes) int {
+	switch {
+	case len(b) >= 1 && b[0] == '0':
+		return 1
+	case len(b) >= 2 && b[0] == '-' && b[1] == '0':
+		return 2
+	}
+	return 0
+}
+
 // trimLeadingZerosInTheIntegerPart removes zeros from the beginning of the integer
 // part (if any).
 func (n *Number) trimLeadingZerosInTheIntegerPart() error {
